@@ -292,7 +292,7 @@ def main_c06(tier):
     FL.lemma_amps(65535)
     cases = [{"kind": "blob"}, {"kind": "tiny", "n": 0}, {"kind": "tiny", "n": 1}]
     cases += [{"kind": "full", "n": n} for n in (165, 168, 159)]
-    extra_lens = [2, 3, 158, 160, 164, 166, 167, 169] if tier == "quick" else list(range(2, 400))
+    extra_lens = [2, 3] + list(range(150, 180)) if tier == "quick" else list(range(2, 400))
     cases += [{"kind": "tiny", "n": n} for n in extra_lens if n not in (165, 168, 159)]
     results = H.run_cases("harness.bcast", "run_c06", cases, timeout_ms=120000 if tier == "quick" else 600000)
     nw = H.validate_call_witnesses(results, cmp=lambda exp, o: _cmp_devices(exp, o) and o.get("warnings") == exp["warnings"])
